@@ -242,6 +242,7 @@ def check_tables(cfg, crate, rep):
             if nm not in KU_BITS:
                 rep.fail("C02.tables", "%s|%s|%s" % (cfg, fn, nm), "variant not in the reference table")
         rep.sample({"rule": "C02.tables", "fn": fn, "table": {k: hex(x) for k, x in seen.items() if isinstance(x, int)}})
+    ku_encoding(cfg, crate, rep)
     # EKU OIDs
     fn = "certificate::ExtendedKeyUsagePurpose::oid"
     rep.fn(fn)
@@ -292,6 +293,51 @@ def check_tables(cfg, crate, rep):
     rep.floor("C02.tables", "oid.rs constants (%s)" % cfg, n, 25)
     # CIDR: to_bytes = address then mask; from_v4_prefix <-> u32, from_v6_prefix <-> u128
     cidr(cfg, crate, I, rep)
+
+
+def ku_encoding(cfg, crate, rep, rule="C02.tables"):
+    """The KeyUsage BIT STRING for every set of usages, by exhaustive constant propagation through write_key_usage
+    (analysis L with effect capture): for all 512 subsets, and for lists with repeated entries, the bytes and the bit
+    count handed to write_bitvec_bytes are the OR of the usages' RFC 5280 bits, with no trailing zero bits."""
+    import ceval
+    fn = "certificate::CertificateParams::write_key_usage"
+    rep.fn(fn)
+    vals = ceval.enum_values(crate, "KeyUsagePurpose") or []
+    names = [v.variant.split("::")[-1] for v in vals]
+    if sorted(names) != sorted(KU_BITS):
+        rep.fail(rule, "%s|%s|encoding" % (cfg, fn), "KeyUsagePurpose variants differ from the reference table", found=names)
+        return
+    E = ceval.Eval(crate, budget=50_000_000)
+    E.capture = "write_bitvec_bytes"
+    lists = []
+    for combo in range(1 << len(vals)):
+        lists.append([v for i, v in enumerate(vals) if combo >> i & 1])
+    for i, v in enumerate(vals):
+        w = vals[(i + 1) % len(vals)]
+        lists += [[v, v], [v, w, v], [w, v, v, w]]
+    lists.append(list(reversed(vals)))
+    bad = {}
+    for ks in lists:
+        mask = 0
+        for k in ks:
+            mask |= 0x8000 >> KU_BITS[k.variant.split("::")[-1]]
+        E.captured = []
+        try:
+            E.call(fn, [ceval.Adt("certificate::CertificateParams", None, {"key_usages": list(ks)}), ceval.OPAQUE])
+            got = E.captured
+        except (ceval.Unsupported, ceval.Panic) as e:
+            got = "%s: %s" % (type(e).__name__, e)
+        if mask == 0:
+            want = []
+        else:
+            bits = 16 - ((mask & -mask).bit_length() - 1)
+            want = [[list(mask.to_bytes(2, "big")[:(bits + 7) // 8]), bits]]
+        if got != want:
+            bad[",".join(k.variant.split("::")[-1] for k in ks) or "(none)"] = "%s, expected %s" % (got, want)
+            if len(bad) >= 4:
+                break
+    rep.ob(rule, "%s|%s|encoding" % (cfg, fn), not bad, "for every set of key usages (all 512 subsets, and lists with repeated entries) the KeyUsage BIT STRING is the OR of the usages' bits without trailing zero bits; an empty list writes no extension",
+           expected="%d usage lists agree" % len(lists), found=bad or "%d usage lists agree" % len(lists))
 
 
 def cidr(cfg, crate, I, rep):
@@ -477,6 +523,10 @@ def run(ctx):
             check_report(cfg, crate, rep)
         if cfg in ("K1", "K2"):
             check_tables(cfg, crate, rep)
+            # "the subject public key is the requested one": a key given as a parsed SubjectPublicKeyInfo is re-serialised
+            # from the algorithm the parser recognised, which must therefore be the complete identifier (curve included)
+            import c11
+            common.borrow_rules(rep, lambda: c11.check_spki(cfg, crate, rep), "C11.", "C02.spki")
     art = common.artefact(ctx.crate("K1"), common.CERT_FN)
     if art.tbs:
         rep.sample({"rule": "C02.schema", "inferred_tree_head": S.render(art.I, art.tbs)[:40]})
